@@ -60,6 +60,10 @@ def call_validator_src(sentinel):
 
 def jobs(prop: str, tier: str, seed: int):
     out = []
+    if prop == "C02":
+        from vf.harness import C02mod
+
+        out.extend(C02mod.jobs(tier))
     for pid, (cs, _) in CALL_ARGS.items():
         b = dict(depth=2, width=2, strlen=2, budget=1)
         for o in ({"call_schema": [list(c) for c in cs]}, {"call_validators": True}, {"call_schema": [list(c) for c in cs], "call_validators": True}):
@@ -222,4 +226,8 @@ class Inst:
 
 
 def make(job):
+    if job.get("variant") == "modular":
+        from vf.harness import C02mod
+
+        return C02mod.make(job)
     return Inst(job)
